@@ -368,6 +368,12 @@ func drvDotLocal(r *rand.Rand, n int) [][]Action {
 		st := &symtab{}
 		L := locals[r.Intn(len(locals))]
 		near := []string{L, L + "/x", "x/" + L, strings.ToUpper(L), strings.ToLower(L), L + "x", L[1:], L + "/", "other/d", "fmt"}
+		if i%2 == 1 {
+			// structural look-alikes: the local path below a vendor / internal directory, with a major-version or VCS suffix,
+			// with dot segments or doubled slashes - all of them are other packages
+			near = append(near, "x/vendor/"+L, "vendor/"+L, L+"/vendor/x", "x/internal/"+L, L+"/internal", L+"/v2", "v2/"+L, "./"+L, "../"+L,
+				L+"/.", L+"//", "/"+L, L+".git", strings.Replace(L+"/y", "/", "//", 1), strings.Replace(L+"/y", "/", "/./", 1), "gopkg.in/"+L+".v1", "_/"+L, L+"_test", L+"/"+L, "x/vendor/"+L+"/y")
+		}
 		a := newAct(L, []string{"", "pkg"}[r.Intn(2)])
 		if r.Intn(3) == 0 {
 			a.Ctor = "NewFilePath"
